@@ -88,7 +88,10 @@ fn wire_traits(rep: &mut Report, w: &WMsg) {
 
 // =================================================================== C04
 
-const BAD_TAGS: [u8; 12] = [0x00, 0x06, 0x07, 0x0a, 0x0f, 0x4b, 0x4c, 0x7f, 0x80, 0xc3, 0xfe, 0xff];
+// bytes that are neither a delimiter the IANA registry knows (0x01-0x0a) nor in the range the registry assigns value
+// syntaxes from (0x10-0x7f): these must be rejected. (0x06-0x0a are registered delimiters the pinned library happens not
+// to support; 0x4b-0x7f are unassigned value tags a library may reject or hand out as opaque values: both unjudged.)
+const BAD_TAGS: [u8; 12] = [0x00, 0x0b, 0x0c, 0x0d, 0x0e, 0x0f, 0x80, 0x81, 0xa5, 0xc3, 0xfe, 0xff];
 
 pub(crate) fn c04_judge(rep: &mut Report, label: &str, bytes: Vec<u8>, expected: &Model, replay: &[String]) {
     rep.eval();
@@ -293,7 +296,7 @@ pub fn run_c04(args: &Args, tier: &str, seed: u64) -> Report {
         rep
     });
     let mut rep = merge_all("C04", tier, seed, parts);
-    rep.rule = format!("G2: wire-level message trees from the RFC 8010 grammar (groups x attributes x 1..n values x nested collections x every tag 0x10-0x4a with a syntactically valid body, non-UTF-8 text, repeated/empty groups, messages not starting with the operation group, mixed sets, multi-valued members, sets of collections, boundary lengths) alternating with G1 messages in reference encoding, plus the C01 shapes; plus every token sequence of length <= {tok_k} over the 16-token alphabet that the reference decoder accepts. Oracle: parse result via the public API == reference interpretation (interp) of the tree; every 8th tree also with 3 bytes outside 0x01-0x05/0x10-0x4a substituted at tag positions, demanding exactly InvalidTag(b). Non-trivial = a multi-valued attribute, a collection or >= 3 groups; distinct by hash of the input bytes.");
+    rep.rule = format!("G2: wire-level message trees from the RFC 8010 grammar (groups x attributes x 1..n values x nested collections x every tag 0x10-0x4a with a syntactically valid body, non-UTF-8 text, repeated/empty groups, messages not starting with the operation group, mixed sets, multi-valued members, sets of collections, boundary lengths) alternating with G1 messages in reference encoding, plus the C01 shapes; plus every token sequence of length <= {tok_k} over the 16-token alphabet that the reference decoder accepts. Oracle: parse result via the public API == reference interpretation (interp) of the tree; every 8th tree also with 3 bytes that are neither registered delimiters (0x01-0x0a) nor in the value-tag range 0x10-0x7f (0x00, 0x0b-0x0f, 0x80-0xff) substituted at tag positions, demanding exactly InvalidTag(b). Non-trivial = a multi-valued attribute, a collection or >= 3 groups; distinct by hash of the input bytes.");
     if only.is_none() && only_tok.is_none() {
         let tags = rep.sets.get("value_tags").map(|s| s.len()).unwrap_or(0);
         rep.require(tags >= 57, &format!("every value tag 0x10-0x4a except the two structural ones exercised (saw {tags}/57)"));
